@@ -2,32 +2,21 @@ import verif
 
 MANIFEST = dict(
 
-   text="Machine-checked Coq theorems, for every 64-bit input: IntegerSquareroot = floor sqrt (Newton iteration, fuel and overflow discharged); IsPowerOfTwo iff 2^k; NextPowerOfTwo = 2^log2_up (bit-smearing lemma) or 0 when unrepresentable; EpochStartSlot/TimeAtSlot return the exact value iff representable else the error; TimeToSlot is 0 before genesis and otherwise THE slot whose interval [s*SPS+g,(s+1)*SPS+g) contains t (floor, uniqueness, 64-bit bound); SlotToEpoch is floor(s/SPE) and EpochStartSlot, when it answers, is the least slot of its epoch; Slot/Epoch.Previous saturate at genesis; MinU64/MaxU64 are tied by the correspondence; XorBytes32 is the byte-wise xor (length, per-byte value, range, commutative, self-inverse); IntegerSquareRootPrysm (float64 estimate, no Impl model) is judged against floor sqrt by the correspondence only and its rounding failure above 2^52 is a recorded known finding; the re-usable hash object of GetHashFn/Sha256Repeat is driven over message sequences against the Gallina SHA-256; CheckSlotSpan, CommitteeCount, churn, activation-exit epoch equal the spec formula; VerifyMerkleBranch = is_valid_merkle_branch for any hash function. The hand-written Impl model is tied to /repo on every run by differential execution of Go vs model (vm_compute) on the boundary set and random inputs; a Go/Spec disagreement is reported with the input.",
+   text="Machine-checked Coq theorems, for every 64-bit input: IntegerSquareroot = floor sqrt (Newton iteration, fuel and overflow discharged); IsPowerOfTwo iff 2^k; NextPowerOfTwo = 2^log2_up (bit-smearing lemma) or 0 when unrepresentable; EpochStartSlot/TimeAtSlot return the exact value iff representable else the error; TimeToSlot is 0 before genesis and otherwise THE slot whose interval [s*SPS+g,(s+1)*SPS+g) contains t (floor, uniqueness, 64-bit bound); SlotToEpoch is floor(s/SPE) and EpochStartSlot, when it answers, is the least slot of its epoch; Slot/Epoch.Previous saturate at genesis; MinU64/MaxU64 are tied by the correspondence; XorBytes32 is the byte-wise xor (length, per-byte value, range, commutative, self-inverse); IntegerSquareRootPrysm (table, float64 estimate, division-based correction loops) returns floor sqrt for ANY estimate the float unit produces (the estimate is an oracle of the model, recomputed by the harness with the same Go expression); the re-usable hash object of GetHashFn/Sha256Repeat is driven over message sequences against the Gallina SHA-256; CheckSlotSpan, CommitteeCount, churn, activation-exit epoch equal the spec formula; VerifyMerkleBranch = is_valid_merkle_branch for any hash function. The hand-written Impl model is tied to /repo on every run by differential execution of Go vs model (vm_compute) on the boundary set and random inputs; a Go/Spec disagreement is reported with the input.",
    note="Trusted: Coq kernel+VM, the Go harness/driver, the hand-written model (tied by execution, not translation), hash as a Section variable. No axioms (Print Assumptions: closed). Zero divisors in the config are outside the domain.",
    technique="Coq proof (induction/arith/bit lemmas) + Go-vs-model differential correspondence",
    design="4/C19")
 
 
-def _km_prysm(case, code):
-    # IntegerSquareRootPrysm = uint64(math.Sqrt(float64(n))): from n = 67108865^2 - 1 on, float64 rounding can push the estimate
-    # one above the floor. Only exactly that failure is the known finding: n at or above the first failing input, answer = floor + 1,
-    # judged by the Spec (code bit 2). Anything else (a failure below the threshold, another distance, a panic) is still a violation.
-    import math
-    if not case or case.get("fn") != "IntegerSquareRootPrysm" or code != 2:
-        return False
-    n, g = int(case["n"]), int(case["go"])
-    return n >= 4503599761588224 and g == math.isqrt(n) + 1
-
-
 def make_check():
     return verif.Check(
         "C19",
-        known_match={"isqrt_prysm_float_rounding": _km_prysm},
         make_targets=["Properties/C19.vo", "Math/MathRun.vo"],
         trust=[
             "Section variables of the Merkle theorems: the hash H, concatenation and equality on byte strings (no laws assumed)",
+            "Math/Prysm.v: the float64 estimate uint64(math.Sqrt(float64(n))) is an oracle (any value allowed by the theorem); uint64 arithmetic of the correction loops modelled in unbounded N (every visited x lies between the estimate and sqrt n, so no wrap: argued, not proved)",
             "hand-written Impl model Math/MathModel.v of math_util.go, crypto_util.go, time.go, CommitteeCount, CheckSlotSpan; tied to /repo by differential execution on the boundary set, not by translation",
         ],
-        model_files=["coq/Math/MathModel.v", "coq/Math/MathProofs.v", "coq/Math/Pow2Proofs.v", "coq/Math/MathRun.v", "coq/Properties/C19.v"],
+        model_files=["coq/Math/MathModel.v", "coq/Math/Prysm.v", "coq/Math/MathProofs.v", "coq/Math/Pow2Proofs.v", "coq/Math/MathRun.v", "coq/Properties/C19.v"],
         notes="SECONDS_PER_SLOT = 0 and other zero divisors are outside Config_wf (Go panics by integer division); depth > len(branch) panics in Go and in the model (outside the documented domain).",
     )
